@@ -166,6 +166,19 @@ def gen_history(rng, nsigs=None, max_steps=12, widths=None, time_profile="mixed"
     return sigs, steps, implicit_first
 
 
+def gap_history(rng, gap, nsteps_after=3):
+    """signals that stay quiet for `gap` time steps inside one block and then change"""
+    sigs = [Sig("b", 1), Sig("b", rng.choice([2, 8, 33])), Sig("r"), Sig("s"), Sig("b", 1)]
+    steps = [(0, [(0, "1"), (1, rand_bits(rng, sigs[1].width, 2)), (2, "1.5"), (3, "a"), (4, "0")])]
+    for k in range(1, gap):
+        steps.append((k, [(4, "01"[k % 2])] if k % 1000 == 0 else []))
+    for j in range(nsteps_after):
+        k = gap + j
+        steps.append((k, [(0, "01xz"[j % 4]), (1, rand_bits(rng, sigs[1].width, rng.choice([2, 4, 9]))),
+                          (2, "%d.25" % j), (3, "b%d" % j)]))
+    return sigs, steps
+
+
 # ------------------------------------------------------------------ VCD text
 
 def upper_some(rng, s):
@@ -298,13 +311,17 @@ def sigs_arg(sigs, kind, idx, nuniq, idents):
     return "%s;%s;%s" % (kind, ",".join(tpes), ids if kind == "M" else "-")
 
 
-def vcd_case(rng, mode, sigs, steps, implicit_first, ws="mixed", line_discipline=False, regime=None, pad=(0, 0)):
-    """returns (case line, expected observation string, meta)"""
+def vcd_case(rng, mode, sigs, steps, implicit_first, ws="mixed", line_discipline=False, regime=None, pad=(0, 0),
+             strip_end=False):
+    """returns (case line, expected observation string, meta); strip_end: the file ends directly after its
+    last token (no trailing blank space)"""
     idents, kind, idx, nuniq = assign_ids(rng, len(sigs), regime)
     hdr = header_text(rng, sigs, idents, plain=(ws == "plain"))
     body = body_text(rng, sigs, idents, steps, implicit_first, ws, line_discipline)
     if pad != (0, 0):
         body = body[:1] + b"\n" * pad[0] + body[1:] + b"\n" * pad[1]
+    if strip_end and len(body.strip()) > 0:
+        body = body.rstrip(b" \t\r\n")
     table, out = expected_obs(sigs, steps, implicit_first)
     exp = obs_string(table, out, idx)
     line = "vcd %s %s %s %s" % (mode, sigs_arg(sigs, kind, idx, nuniq, idents), hexs(hdr), hexs(body))
